@@ -123,3 +123,87 @@ pub fn linemeasure_case(cx: &mut Ctx, n: u64, case: &Value) {
         }
     }
 }
+
+/// General slopes (irrational segment lengths): exact ends + the laws that relate the forms to each other.
+#[allow(deprecated)]
+pub fn linemeasure_general_case(cx: &mut Ctx, n: u64, case: &Value) {
+    if !cx.wants("C15") {
+        return;
+    }
+    let cs = coords(&case["cs"]);
+    let ls = LineString::new(cs.clone());
+    let (first, last) = (cs[0], cs[cs.len() - 1]);
+    let total: f64 = case["seg2"].as_array().unwrap().iter().map(|v| v.as_f64().unwrap().sqrt()).sum();
+    let tol = 1e-12 * total.max(1.0);
+    if n % 1499 == 0 {
+        cx.sample(case.clone());
+    }
+    cx.count("linemeasure_general_cases", 1);
+    if case["irrational"].as_bool().unwrap() {
+        cx.count("linemeasure_irrational_cases", 1);
+    }
+    // (the required answer is the end vertex; the implementation reaches it through arithmetic, so: within tolerance)
+    let exact = |p: Option<Point<f64>>, w: Coord<f64>| close(p, w, tol);
+    // at or beyond the ends: exactly the end vertices (no arithmetic is involved in the required answer)
+    for r in [1.0f64, 1.0 + f64::EPSILON, 1.5, 2.0, 1e300, f64::INFINITY] {
+        if !r.is_finite() && total == 0.0 { continue; }     // an infinite ratio of a zero length is not a position
+        let mut chk = |sub: &str, what: String, got: Result<Option<Point<f64>>, String>, want: Coord<f64>| match got {
+            Ok(p) if exact(p, want) => cx.ok(sub),
+            other => cx.bad("C15", sub, case, json!({"what": what, "got": format!("{other:?}"), "want": [want.x, want.y]})),
+        };
+        chk("beyond_end_from_start", format!("point_at_ratio_from_start({r})"), guard(|| ls.point_at_ratio_from_start(&Euclidean, r)), last);
+        chk("beyond_end_from_end", format!("point_at_ratio_from_end({r})"), guard(|| ls.point_at_ratio_from_end(&Euclidean, r)), first);
+        chk("beyond_end_legacy", format!("line_interpolate_point({r})"), guard(|| ls.line_interpolate_point(r)), last);
+        if r.is_finite() && r < 1e100 {
+            chk("beyond_end_distance", format!("point_at_distance_from_start({})", r * total * (1.0 + 1e-9)), guard(|| ls.point_at_distance_from_start(&Euclidean, r * total * (1.0 + 1e-9))), last);
+        }
+    }
+    for r in [0.0f64, -0.0, -0.5, -1e300, f64::NEG_INFINITY] {
+        if !r.is_finite() && total == 0.0 { continue; }
+        let mut chk = |sub: &str, what: String, got: Result<Option<Point<f64>>, String>, want: Coord<f64>| match got {
+            Ok(p) if exact(p, want) => cx.ok(sub),
+            other => cx.bad("C15", sub, case, json!({"what": what, "got": format!("{other:?}"), "want": [want.x, want.y]})),
+        };
+        chk("before_start_from_start", format!("point_at_ratio_from_start({r})"), guard(|| ls.point_at_ratio_from_start(&Euclidean, r)), first);
+        chk("before_start_from_end", format!("point_at_ratio_from_end({r})"), guard(|| ls.point_at_ratio_from_end(&Euclidean, r)), last);
+        chk("before_start_legacy", format!("line_interpolate_point({r})"), guard(|| ls.line_interpolate_point(r)), first);
+    }
+    // interior ratios: the forms agree with each other and locate maps back (laws of the property on geo's own output)
+    for k in 1..8 {
+        let r = k as f64 / 8.0;
+        let a = guard(|| ls.point_at_ratio_from_start(&Euclidean, r));
+        let b = guard(|| ls.point_at_ratio_from_end(&Euclidean, 1.0 - r));
+        let c = guard(|| ls.point_at_distance_from_start(&Euclidean, r * total));
+        let d = guard(|| ls.line_interpolate_point(r));
+        match (&a, &b, &c, &d) {
+            (Ok(Some(pa)), Ok(Some(pb)), Ok(Some(pc)), Ok(Some(pd)))
+                if (pa.x() - pb.x()).abs() <= 1e-9 && (pa.y() - pb.y()).abs() <= 1e-9 && (pa.x() - pc.x()).abs() <= 1e-9 && (pa.y() - pc.y()).abs() <= 1e-9
+                    && (pa.x() - pd.x()).abs() <= 1e-9 && (pa.y() - pd.y()).abs() <= 1e-9 => cx.ok("forms_agree"),
+            _ => cx.bad("C15", "forms_agree", case, json!({"what": format!("ratio {r}: from_start / from_end(1-r) / distance / legacy"), "got": format!("{a:?} {b:?} {c:?} {d:?}")})),
+        }
+        if let Ok(Some(pa)) = a {
+            // the arc length up to the point, measured through the located fraction, is r * total
+            if case["simple"].as_bool().unwrap() && cs[0] != cs[cs.len() - 1] {
+                match guard(|| ls.line_locate_point(&pa)) {
+                    Ok(Some(f)) if (f - r).abs() <= 1e-9 => cx.ok("locate_round_trip"),
+                    other => cx.bad("C15", "locate_round_trip", case, json!({"what": format!("line_locate_point(point_at({r}))"), "got": format!("{other:?}"), "want": r})),
+                }
+            }
+        }
+    }
+    // densify with a bound below / at / above segment lengths: the four postconditions
+    for max in [0.3f64, 1.0, 1.5, total.max(0.5), 1e6] {
+        let got = guard(|| Euclidean.densify(&ls, max));
+        let ok = match &got {
+            Ok(o) => {
+                let out = &o.0;
+                let mut j = 0;
+                for c in out { if j < cs.len() && *c == cs[j] { j += 1; } }
+                let sum: f64 = out.windows(2).map(|w| ((w[1].x - w[0].x).powi(2) + (w[1].y - w[0].y).powi(2)).sqrt()).sum();
+                j == cs.len() && out.windows(2).all(|w| ((w[1].x - w[0].x).powi(2) + (w[1].y - w[0].y).powi(2)).sqrt() <= max * (1.0 + 1e-12)) && (sum - total).abs() <= 1e-9 * total.max(1.0)
+            }
+            Err(_) => false,
+        };
+        if ok { cx.ok("densify_general"); } else { cx.bad("C15", "densify_general", case, json!({"what": format!("densify(max = {max})"), "got": format!("{got:?}").chars().take(300).collect::<String>()})); }
+    }
+}
